@@ -857,4 +857,90 @@ theorem T_C10_alignment_max (v n1 n2 : V3) (w : Rat) (hw : 0 < w) (hww : w * w =
 /-- non-vacuity: two unit boxes two units apart along x: right side of the first, left side of the second -/
 example : alignment ⟨2, 0, 0⟩ ⟨1, 0, 0⟩ ⟨-1, 0, 0⟩ 2 = 2 ∧ alignment ⟨2, 0, 0⟩ ⟨0, 1, 0⟩ ⟨-1, 0, 0⟩ 2 = 1 := by decide +kernel
 
+/-! ### Round 6e: Jacobians under isometries; a revolved block in any frame -/
+
+/-- **the corner Jacobians of a hexahedron are invariant under every rotation followed by a translation** (rotation about any unit
+    axis `u` through any point `o` by any angle `(c, s)` on the unit circle, any displacement `t`): orientation-preserving
+    isometries keep right-handedness, corner by corner -/
+theorem T_C10_jacobian_isometry (p0 p1 p2 p3 p4 p5 p6 p7 : V3) (c s : Rat) (u o t : V3)
+    (hu : V3.norm2 u = 1) (hcs : c * c + s * s = 1) :
+    cornerNbrs.map (cornerJac ([p0, p1, p2, p3, p4, p5, p6, p7].map (fun p => rotU c s u o p + t))) =
+      cornerNbrs.map (cornerJac [p0, p1, p2, p3, p4, p5, p6, p7]) := by
+  have iso_sub : ∀ p q : V3, (rotU c s u o p + t) - (rotU c s u o q + t) = rotLin c s u (p - q) := by
+    intro p q
+    rw [← rotU_sub c s u o p q]
+    apply V3.ext' <;> simp only [V3.add_x, V3.add_y, V3.add_z, V3.sub_x, V3.sub_y, V3.sub_z] <;> ring
+  simp only [cornerNbrs, List.map_cons, List.map_nil, cornerJac, List.getD_cons_zero, List.getD_cons_succ, iso_sub,
+    triple_rotLin c s u _ _ _ hu hcs]
+
+/-- non-vacuity: the unit cube turned by the angle with (cos, sin) = (3/5, 4/5) about the axis (2/3, 1/3, 2/3) through (1, 2, 3) and
+    displaced still has Jacobian 1 at every corner -/
+example : V3.norm2 ⟨2/3, 1/3, 2/3⟩ = 1 ∧ ((3 : Rat) / 5 * (3 / 5) + 4 / 5 * (4 / 5) = 1) ∧
+    cornerNbrs.map (cornerJac ((Aff.hex ⟨⟨1, 0, 0⟩, ⟨0, 1, 0⟩, ⟨0, 0, 1⟩, ⟨0, 0, 0⟩⟩).pts.map
+      (fun p => rotU (3/5) (4/5) ⟨2/3, 1/3, 2/3⟩ ⟨1, 2, 3⟩ p + ⟨5, -1, 1/2⟩))) = [1, 1, 1, 1, 1, 1, 1, 1] := by decide +kernel
+
+/-- **a revolved block is right-handed in every frame**: any origin `o`, any unit axis `u`, any unit radial direction `e ⟂ u`
+    (the half-plane through the axis that contains the base), base corners at heights `h i` along the axis and distances
+    `ρ i > 0` from it, convex and counter-clockwise in the `(h, ρ)` plane seen from the side `u × e` the sweep goes to
+    (`A i > 0`), sweep angle in (0, π) (`s > 0`, any `c`): the Jacobian at corner `i` of the base and at corner `i + 4` of the
+    turned face is `A i · ρ i · s`, so all eight are positive.  (`T_C10_revolve_right_handed` is the frame `u = x`, `e = y`.) -/
+theorem T_C10_revolve_right_handed_frame (o u e : V3) (h0 r0 h1 r1 h2 r2 h3 r3 c s : Rat)
+    (hu : V3.norm2 u = 1) (he : V3.norm2 e = 1) (hue : V3.dot u e = 0)
+    (hr0 : 0 < r0) (hr1 : 0 < r1) (hr2 : 0 < r2) (hr3 : 0 < r3) (hs : 0 < s)
+    (hA0 : 0 < (h1 - h0) * (r3 - r0) - (r1 - r0) * (h3 - h0)) (hA1 : 0 < (h2 - h1) * (r0 - r1) - (r2 - r1) * (h0 - h1))
+    (hA2 : 0 < (h3 - h2) * (r1 - r2) - (r3 - r2) * (h1 - h2)) (hA3 : 0 < (h0 - h3) * (r2 - r3) - (r0 - r3) * (h2 - h3)) :
+    let pts := revolvePoints [halfPlanePt o u e h0 r0, halfPlanePt o u e h1 r1, halfPlanePt o u e h2 r2, halfPlanePt o u e h3 r3]
+      c s u 1 o
+    cornerNbrs.map (cornerJac pts) =
+      [((h1 - h0) * (r3 - r0) - (r1 - r0) * (h3 - h0)) * r0 * s, ((h2 - h1) * (r0 - r1) - (r2 - r1) * (h0 - h1)) * r1 * s,
+       ((h3 - h2) * (r1 - r2) - (r3 - r2) * (h1 - h2)) * r2 * s, ((h0 - h3) * (r2 - r3) - (r0 - r3) * (h2 - h3)) * r3 * s,
+       ((h1 - h0) * (r3 - r0) - (r1 - r0) * (h3 - h0)) * r0 * s, ((h2 - h1) * (r0 - r1) - (r2 - r1) * (h0 - h1)) * r1 * s,
+       ((h3 - h2) * (r1 - r2) - (r3 - r2) * (h1 - h2)) * r2 * s, ((h0 - h3) * (r2 - r3) - (r0 - r3) * (h2 - h3)) * r3 * s] ∧
+    ∀ j ∈ cornerNbrs.map (cornerJac pts), 0 < j := by
+  intro pts
+  have hpts : pts = [halfPlanePt o u e h0 r0, halfPlanePt o u e h1 r1, halfPlanePt o u e h2 r2, halfPlanePt o u e h3 r3,
+      turnedPt o u e c s h0 r0, turnedPt o u e c s h1 r1, turnedPt o u e c s h2 r2, turnedPt o u e c s h3 r3] := by
+    simp only [pts, revolvePoints, List.map_cons, List.map_nil, List.cons_append, List.nil_append,
+      rotateP_halfPlanePt o u e c s _ _ hu hue]
+  have hu' := hu
+  have he' := he
+  have hue' := hue
+  simp only [V3.norm2, V3.dot] at hu' he' hue'
+  have hJ : cornerNbrs.map (cornerJac pts) =
+      [((h1 - h0) * (r3 - r0) - (r1 - r0) * (h3 - h0)) * r0 * s, ((h2 - h1) * (r0 - r1) - (r2 - r1) * (h0 - h1)) * r1 * s,
+       ((h3 - h2) * (r1 - r2) - (r3 - r2) * (h1 - h2)) * r2 * s, ((h0 - h3) * (r2 - r3) - (r0 - r3) * (h2 - h3)) * r3 * s,
+       ((h1 - h0) * (r3 - r0) - (r1 - r0) * (h3 - h0)) * r0 * s, ((h2 - h1) * (r0 - r1) - (r2 - r1) * (h0 - h1)) * r1 * s,
+       ((h3 - h2) * (r1 - r2) - (r3 - r2) * (h1 - h2)) * r2 * s, ((h0 - h3) * (r2 - r3) - (r0 - r3) * (h2 - h3)) * r3 * s] := by
+    rw [hpts]
+    simp only [cornerNbrs, List.map_cons, List.map_nil, cornerJac, List.getD_cons_zero, List.getD_cons_succ, triple,
+      halfPlanePt, turnedPt, V3.dot, V3.add_x, V3.add_y, V3.add_z, V3.sub_x, V3.sub_y, V3.sub_z, V3.smul_x, V3.smul_y,
+      V3.smul_z, V3.cross_x, V3.cross_y, V3.cross_z]
+    refine List.cons_eq_cons.mpr ⟨?_, List.cons_eq_cons.mpr ⟨?_, List.cons_eq_cons.mpr ⟨?_, List.cons_eq_cons.mpr ⟨?_,
+      List.cons_eq_cons.mpr ⟨?_, List.cons_eq_cons.mpr ⟨?_, List.cons_eq_cons.mpr ⟨?_, List.cons_eq_cons.mpr ⟨?_, rfl⟩⟩⟩⟩⟩⟩⟩⟩
+    · linear_combination ((((h1 - h0) * (r3 - r0) - (r1 - r0) * (h3 - h0)) * r0 * s) * (e.x * e.x + e.y * e.y + e.z * e.z)) * hu' + (((h1 - h0) * (r3 - r0) - (r1 - r0) * (h3 - h0)) * r0 * s) * he' - ((((h1 - h0) * (r3 - r0) - (r1 - r0) * (h3 - h0)) * r0 * s) * (u.x * e.x + u.y * e.y + u.z * e.z)) * hue'
+    · linear_combination ((((h2 - h1) * (r0 - r1) - (r2 - r1) * (h0 - h1)) * r1 * s) * (e.x * e.x + e.y * e.y + e.z * e.z)) * hu' + (((h2 - h1) * (r0 - r1) - (r2 - r1) * (h0 - h1)) * r1 * s) * he' - ((((h2 - h1) * (r0 - r1) - (r2 - r1) * (h0 - h1)) * r1 * s) * (u.x * e.x + u.y * e.y + u.z * e.z)) * hue'
+    · linear_combination ((((h3 - h2) * (r1 - r2) - (r3 - r2) * (h1 - h2)) * r2 * s) * (e.x * e.x + e.y * e.y + e.z * e.z)) * hu' + (((h3 - h2) * (r1 - r2) - (r3 - r2) * (h1 - h2)) * r2 * s) * he' - ((((h3 - h2) * (r1 - r2) - (r3 - r2) * (h1 - h2)) * r2 * s) * (u.x * e.x + u.y * e.y + u.z * e.z)) * hue'
+    · linear_combination ((((h0 - h3) * (r2 - r3) - (r0 - r3) * (h2 - h3)) * r3 * s) * (e.x * e.x + e.y * e.y + e.z * e.z)) * hu' + (((h0 - h3) * (r2 - r3) - (r0 - r3) * (h2 - h3)) * r3 * s) * he' - ((((h0 - h3) * (r2 - r3) - (r0 - r3) * (h2 - h3)) * r3 * s) * (u.x * e.x + u.y * e.y + u.z * e.z)) * hue'
+    · linear_combination ((((h1 - h0) * (r3 - r0) - (r1 - r0) * (h3 - h0)) * r0 * s) * (e.x * e.x + e.y * e.y + e.z * e.z)) * hu' + (((h1 - h0) * (r3 - r0) - (r1 - r0) * (h3 - h0)) * r0 * s) * he' - ((((h1 - h0) * (r3 - r0) - (r1 - r0) * (h3 - h0)) * r0 * s) * (u.x * e.x + u.y * e.y + u.z * e.z)) * hue'
+    · linear_combination ((((h2 - h1) * (r0 - r1) - (r2 - r1) * (h0 - h1)) * r1 * s) * (e.x * e.x + e.y * e.y + e.z * e.z)) * hu' + (((h2 - h1) * (r0 - r1) - (r2 - r1) * (h0 - h1)) * r1 * s) * he' - ((((h2 - h1) * (r0 - r1) - (r2 - r1) * (h0 - h1)) * r1 * s) * (u.x * e.x + u.y * e.y + u.z * e.z)) * hue'
+    · linear_combination ((((h3 - h2) * (r1 - r2) - (r3 - r2) * (h1 - h2)) * r2 * s) * (e.x * e.x + e.y * e.y + e.z * e.z)) * hu' + (((h3 - h2) * (r1 - r2) - (r3 - r2) * (h1 - h2)) * r2 * s) * he' - ((((h3 - h2) * (r1 - r2) - (r3 - r2) * (h1 - h2)) * r2 * s) * (u.x * e.x + u.y * e.y + u.z * e.z)) * hue'
+    · linear_combination ((((h0 - h3) * (r2 - r3) - (r0 - r3) * (h2 - h3)) * r3 * s) * (e.x * e.x + e.y * e.y + e.z * e.z)) * hu' + (((h0 - h3) * (r2 - r3) - (r0 - r3) * (h2 - h3)) * r3 * s) * he' - ((((h0 - h3) * (r2 - r3) - (r0 - r3) * (h2 - h3)) * r3 * s) * (u.x * e.x + u.y * e.y + u.z * e.z)) * hue'
+  refine ⟨hJ, ?_⟩
+  rw [hJ]
+  intro j hj
+  simp only [List.mem_cons, List.not_mem_nil, or_false] at hj
+  rcases hj with h | h | h | h | h | h | h | h <;> subst h <;>
+    first
+      | exact mul_pos (mul_pos hA0 hr0) hs
+      | exact mul_pos (mul_pos hA1 hr1) hs
+      | exact mul_pos (mul_pos hA2 hr2) hs
+      | exact mul_pos (mul_pos hA3 hr3) hs
+
+/-- non-vacuity: axis (3/5, 4/5, 0) through (1, 1, 1), radial direction (−4/5, 3/5, 0), a unit square one unit away, a quarter turn -/
+example : V3.norm2 ⟨3/5, 4/5, 0⟩ = 1 ∧ V3.norm2 ⟨-4/5, 3/5, 0⟩ = 1 ∧ V3.dot ⟨3/5, 4/5, 0⟩ ⟨-4/5, 3/5, 0⟩ = 0 ∧
+    cornerNbrs.map (cornerJac (revolvePoints [halfPlanePt ⟨1, 1, 1⟩ ⟨3/5, 4/5, 0⟩ ⟨-4/5, 3/5, 0⟩ 0 1,
+      halfPlanePt ⟨1, 1, 1⟩ ⟨3/5, 4/5, 0⟩ ⟨-4/5, 3/5, 0⟩ 1 1, halfPlanePt ⟨1, 1, 1⟩ ⟨3/5, 4/5, 0⟩ ⟨-4/5, 3/5, 0⟩ 1 2,
+      halfPlanePt ⟨1, 1, 1⟩ ⟨3/5, 4/5, 0⟩ ⟨-4/5, 3/5, 0⟩ 0 2] 0 1 ⟨3/5, 4/5, 0⟩ 1 ⟨1, 1, 1⟩)) = [1, 1, 2, 2, 1, 1, 2, 2] := by
+  decide +kernel
+
 end CBV.C10
